@@ -161,6 +161,7 @@ def snapshot(outdir):
 def norm_panic(msg):
     m = re.sub(r"\b(Op|St|En|Out)\d+\b", "T", msg)
     m = re.sub(r"(File map already contains )\S*/", r"\1", m)          # the directory part depends on the configuration (Kotlin package path)
+    m = re.sub(r"(File map already contains )\w+(\.\S+)", r"\1T\2", m)     # whatever the type is called
     m = re.sub(r"\d+", "N", m)
     return m[:110]
 
